@@ -8,7 +8,8 @@
 (* Record: img (sparse words), bytes (image bytes), prog (directive list),    *)
 (* procs (FUNC/PROC names in layout order), symtab (<<name, offset>> as       *)
 (* stored in the binary), lines (<<count, pc, sym, off, opcode, operand>>     *)
-(* parsed from the trace; sym = "" when no symbol was printed), input, xprog. *)
+(* parsed from the trace; sym = "" when no symbol was printed), input, xprog, *)
+(* kind ("x": compiled from X; "asm": hand-written assembly, (a) and (b) only).*)
 EXTENDS HexISA, Json, IOUtils, Folds, Functions, SequencesExt, FiniteSets
 VARIABLE done
 Recs == ndJsonDeserialize(IOEnv.RECS)
@@ -43,14 +44,16 @@ Verdict(r) ==
              ELSE IF <<ln[3], ln[4]>> # own THEN [acc EXCEPT !.bad = "symbol label"]
              ELSE [s |-> t, k |-> acc.k + 1, bad |-> "", ents |-> IF own[2] = 0 /\ own[1] # "" THEN Append(acc.ents, own[1]) ELSE acc.ents]
       f == FoldLeft(StepL, [s |-> State0(MemOf(r.img)), k |-> 0, bad |-> "", ents |-> <<>>], r.lines)
-      xr == X!Run(r.xprog)
+      isasm == r.kind = "asm"          \* a hand-written assembly program: no source-level call sequence to compare with
+      xr == IF isasm THEN [st |-> "exit", amb |-> FALSE, calls |-> <<>>] ELSE X!Run(r.xprog)
       base == [id |-> r.id, n |-> f.k, entries |-> Len(f.ents)]
   IN IF W.err # "" THEN base @@ [v |-> "walk", why |-> W.err]
      ELSE IF ~symOK THEN base @@ [v |-> "bad", why |-> "symbol table does not list each procedure once at its entry"]
-     ELSE IF \E nm \in DOMAIN r.xprog.procs : \A i \in 1..Len(r.symtab) : r.symtab[i][1] # nm
+     ELSE IF ~isasm /\ \E nm \in DOMAIN r.xprog.procs : \A i \in 1..Len(r.symtab) : r.symtab[i][1] # nm
           THEN base @@ [v |-> "bad", why |-> "a procedure of the source program is missing from the symbol table"]
      ELSE IF f.bad # "" THEN base @@ [v |-> "bad", why |-> "trace line " \o ToString(f.k) \o ": " \o f.bad]
      ELSE IF f.s.st = "run" THEN base @@ [v |-> "bad", why |-> "trace ends before the program does"]
+     ELSE IF isasm THEN base @@ [v |-> "ok", why |-> ""]
      ELSE IF xr.st # "exit" THEN base @@ [v |-> "skip", why |-> xr.st]
      ELSE IF (~xr.amb /\ f.ents # <<"main">> \o xr.calls)
              \/ (xr.amb /\ (Len(f.ents) # Len(xr.calls) + 1
